@@ -202,6 +202,8 @@ def standard_check(pid, reg, tier, seed, args, t0):
     nontriv = 0
     opcount = {}
     for c, io, mo in zip(cases, impl, model):
+        if io and io[0] == "NOT-RUN":
+            continue
         for l in c[1:]:
             k = l.split()[0]
             opcount[k] = opcount.get(k, 0) + 1
